@@ -148,7 +148,7 @@ const BASE: Family = Family {
     eager: false,
 };
 
-pub const FAMILY_NAMES: &[&str] = &["mix", "nolimit", "evict", "expiry", "stream", "pool", "nocancel", "seq"];
+pub const FAMILY_NAMES: &[&str] = &["mix", "nolimit", "evict", "expiry", "stream", "pool", "nocancel", "seq", "scale"];
 
 /// Named parameter sets. To add a family: add a name above and an arm here.
 pub fn family(name: &str) -> Option<Family> {
@@ -275,6 +275,8 @@ struct Recorder {
     text: String,
     labels: Vec<Label>,
     stop: bool,
+    /// Do not record the trace text (runs with thousands of entries; monitors only).
+    quiet: bool,
 }
 
 impl Recorder {
@@ -284,7 +286,7 @@ impl Recorder {
         let mut text = String::with_capacity(4096);
         text.push_str(&header);
         text.push('\n');
-        (Recorder { ex, backend, text, labels: Vec::new(), stop: false }, header)
+        (Recorder { ex, backend, text, labels: Vec::new(), stop: false, quiet: false }, header)
     }
 
     /// Apply an action; returns false if it was not enabled. Sets `stop` on a monitor hit or
@@ -295,11 +297,13 @@ impl Recorder {
                 for (l, _) in &seg.steps {
                     self.labels.push(l.clone());
                 }
-                for line in seg.lines(self.backend) {
-                    self.text.push_str(&line.text());
-                    self.text.push('\n');
+                if !self.quiet {
+                    for line in seg.lines(self.backend) {
+                        self.text.push_str(&line.text());
+                        self.text.push('\n');
+                    }
                 }
-                if !self.ex.violations.is_empty() || self.ex.dead || self.ex.consumed {
+                if !self.ex.violations.is_empty() || self.ex.dead || self.ex.consumed || self.ex.monitors.lib_failed {
                     self.stop = true;
                 }
                 true
@@ -524,6 +528,87 @@ pub fn random_run_fork(
         }
     }
     rec.drain(&mut rng);
+    rec.finish(id, header, Vec::new())
+}
+
+/// A long sequential history over more than a thousand keys (monitors only, no trace text): inserts
+/// `n` values under distinct keys, then re-reads a sample of them (the oldest ones first), then consumes.
+/// Finds defects that need a large population (e.g. a hidden capacity bound of the inner map).
+pub fn scale_run(backend: Backend, forced_owned: Option<bool>, seed: u64, run: u64) -> RunOut {
+    let mut rng = Rng::new(seed, run);
+    let owned = forced_owned.unwrap_or_else(|| rng.pct(50));
+    let id = format!("scale-{}-{}-{}", backend.name(), seed, run);
+    let (mut rec, header) = Recorder::new(&id, backend, owned, &format!("family=scale seed={} run={}", seed, run));
+    rec.quiet = true;
+    let n = 1030 + rng.below(300);
+    let shapes = [Shape::B, Shape::A, Shape::T, Shape::TA];
+    let pool = backend == Backend::P;
+    let mut lock_and = |rec: &mut Recorder, rng: &mut Rng, key: Key, op: Option<Gop>| {
+        let sh = if pool { [Shape::B, Shape::A, Shape::T][rng.below(3) as usize] } else { shapes[rng.below(4) as usize] };
+        if !rec.act(Action::Start(Call::Lock { sh, key, lim: 0 })) {
+            return;
+        }
+        for _ in 0..6 {
+            if rec.stop {
+                return;
+            }
+            let en = rec.ex.enabled();
+            match en.resumable.first() {
+                Some(a) => {
+                    rec.act(Action::Resume(*a));
+                }
+                None => break,
+            }
+        }
+        if rec.stop {
+            return;
+        }
+        let en = rec.ex.enabled();
+        if let Some((g, _)) = en.guards.iter().find(|(_, k)| *k == key).copied() {
+            if let Some(op) = op {
+                rec.act(Action::Gop(g, op));
+            }
+            if rec.stop {
+                return;
+            }
+            rec.act(Action::Start(Call::Drop(g)));
+            for _ in 0..4 {
+                if rec.stop {
+                    return;
+                }
+                let en = rec.ex.enabled();
+                match en.resumable.first() {
+                    Some(a) => {
+                        rec.act(Action::Resume(*a));
+                    }
+                    None => break,
+                }
+            }
+        }
+    };
+    for key in 1..=n {
+        if rec.stop {
+            break;
+        }
+        let op = if pool { None } else { Some(Gop::Ins((key % 89) as i64 + 10)) };
+        lock_and(&mut rec, &mut rng, key, op);
+    }
+    // re-read the oldest keys and a random sample
+    for key in 1..=8u64 {
+        if rec.stop {
+            break;
+        }
+        lock_and(&mut rec, &mut rng, key, if pool { None } else { Some(Gop::Read) });
+    }
+    for _ in 0..24 {
+        if rec.stop {
+            break;
+        }
+        let key = 1 + rng.below(n);
+        lock_and(&mut rec, &mut rng, key, if pool { None } else { Some(Gop::Read) });
+    }
+    rec.drain(&mut rng);
+    rec.text.push_str(&format!("# scale run: {} keys, trace text not recorded\n", n));
     rec.finish(id, header, Vec::new())
 }
 
@@ -1103,7 +1188,20 @@ pub fn explore(opts: ExploreOpts) -> Result<String, String> {
     let seed = opts.seed;
     let fork = opts.fork;
 
-    if let Some(f) = family(&opts.family) {
+    if opts.family == "scale" {
+        let count = opts.count;
+        ordered_parallel(
+            count as usize,
+            opts.threads,
+            move |i| (vec![scale_run(backend, owned, seed, i as u64)], ChunkInfo::default()),
+            |runs, _| {
+                for r in runs {
+                    let _ = out.write_all(r.trace.as_bytes());
+                    sum.add(&r, &opts);
+                }
+            },
+        );
+    } else if let Some(f) = family(&opts.family) {
         if backend == Backend::P && f.name != "pool" && f.name != "nolimit" {
             // other families still work on P (unsupported actions are simply never generated)
         }
